@@ -13,6 +13,9 @@ use ragc_common::{
     AGC_FILE_MINOR, CONTIG_SEPARATOR,
 };
 use std::collections::HashMap;
+#[cfg(ragc_verif)]
+use ragc_common::verif::File;
+#[cfg(not(ragc_verif))]
 use std::fs::File;
 use std::path::Path;
 
